@@ -38,6 +38,11 @@ def gen_doc(rnd):
         if has_origin:
             j['xyz'] = [round(rnd.uniform(-0.5, 0.5), 3) for _ in range(3)] if rnd.random() < 0.85 else None
             j['rpy'] = [round(rnd.uniform(-3.0, 3.0), 3) for _ in range(3)] if rnd.random() < 0.8 else None
+            if j['rpy'] is not None and rnd.random() < 0.35:
+                # the angles URDF authors really write: quarter turns and values that cancel, repeat or vanish
+                a = rnd.choice([1.5707963, 3.14159265, 0.3, 0.5, 0.785398])
+                j['rpy'] = rnd.choice([[a, 0.0, -a], [a, -a, 0.0], [0.0, a, -a], [a, a, -2 * a], [0.5, 0.25, -0.75], [a, 0.0, 0.0], [0.0, -a, 0.0], [0.0, 0.0, a],
+                                       [-a, -a, -a], [a, a, a], [0.0, 0.0, 0.0]])
             j['origin'] = True
         else:
             j['origin'] = False; j['xyz'] = None; j['rpy'] = None
@@ -112,6 +117,22 @@ def doc_from_file(path):
     return {'joints': chain, 'serial': all(len(v) == 1 for v in js.values())}
 
 
+def near_half_turn(doc):
+    """joints whose origin rotation, or whose accumulated home rotation, is within 1e-4 of a half turn without being one
+    (where MatrixLog3 — known finding C01-log3-near-pi-precision — loses the rotation vector)"""
+    out = []
+    Racc = np.eye(3)
+    for j in doc['joints']:
+        O = rpy_T(j.get('xyz') or [0, 0, 0], j.get('rpy') or [0, 0, 0])[:3, :3]
+        Racc = Racc @ O
+        for tag, R in (('origin', O), ('accumulated', Racc)):
+            ang = math.acos(max(-1.0, min(1.0, (np.trace(R) - 1) / 2)))
+            skew = np.linalg.norm(R - R.T)
+            if math.pi - ang < 1e-4 and skew > 1e-13:
+                out.append('%s:%s' % (j['name'], tag))
+    return out
+
+
 def urdf_fk(doc, theta):
     T = np.eye(4); k = 0
     for j in doc['joints']:
@@ -157,7 +178,9 @@ def check_doc(doc, path, res, label, rnd, nthetas):
             T = arm.FK(th.copy()).gTM()
         want = urdf_fk(doc, th)
         if np.max(np.abs(T - want)) > 1e-6 * max(1.0, np.max(np.abs(want))):
-            bad('fk', 'FK of the loaded arm differs from the file\'s own semantics (origin transforms each followed by a rotation about the joint axis)', {'theta': th.tolist(), 'diff': G.maxdiff(T, want)})
+            near = near_half_turn(doc)
+            bad('fk:origin-near-half-turn' if near else 'fk', 'FK of the loaded arm differs from the file\'s own semantics (origin transforms each followed by a rotation about the joint axis)',
+                {'theta': th.tolist(), 'diff': G.maxdiff(T, want), 'rotation_within_1e-4_of_a_half_turn_but_not_exact': near})
             break
     return arm
 
@@ -189,8 +212,10 @@ def run(res, tier, seed, driver_ok):
             res.distinct.add(n)
             arm = check_doc(doc, p, res, 'generated', rnd, 50 if thorough else 20)
             os.remove(p)
-            if arm is not None and arm.num_dof == len([j for j in doc['joints'] if j['type'] != 'fixed']):
-                # correspondence: the model's second pass on the abstract document
+            if near_half_turn(doc):
+                stats['documents_with_a_rotation_next_to_a_half_turn'] = stats.get('documents_with_a_rotation_next_to_a_half_turn', 0) + 1
+            elif arm is not None and arm.num_dof == len([j for j in doc['joints'] if j['type'] != 'fixed']):
+                # correspondence (documents next to a half turn are left to the falsifier: known finding C13-origin-near-half-turn): the model's second pass on the abstract document
                 toks = []
                 for j in doc['joints']:
                     O = rpy_T(j['xyz'] or [0, 0, 0], j['rpy'] or [0, 0, 0])
